@@ -468,3 +468,77 @@ def make_return_from(key):
 for _k in T_RET_RAISE:
     OBLIGATIONS.append(Ob('return_from_' + _k, make_return_from(_k), [], timeout=tier(100, 300), data='go bit, returned value rv (unbounded int)',
                           selectors='dtml-return inside ' + _k.replace('_', ' ')))
+
+
+# ---------------------------------------------------------------- wave 4: names that merely resemble, return vs named handlers
+class Error(Exception):
+    pass
+
+
+class Err(Exception):
+    pass
+
+
+class xErr1(Exception):
+    pass
+
+
+class Err12(Exception):
+    pass
+
+
+class rr1(Exception):
+    pass
+
+
+NAME_CLASSES = [Error, Err, xErr1, Err12, rr1, Err1, KeyError]
+T_NAMES = cooked('<dtml-try><dtml-var body><dtml-except KeyError>K<dtml-except Err1>1<dtml-except MyException LookupErrorX>M<dtml-except>B:<dtml-var error_type></dtml-try>')
+
+
+def ob_similar_names(k: int) -> bool:
+    """a handler names a class by its exact name (or the exact name of a base class): names that are a prefix / suffix / extension of it
+    do not match"""
+    i = 0
+    for j in range(len(NAME_CLASSES)):
+        if k == j:
+            i = j
+    cls = NAME_CLASSES[i]
+
+    def body():
+        raise cls('m')
+    out = T_NAMES(body=body)
+    if cls is KeyError:
+        return out == 'K'
+    if cls is Err1:
+        return out == '1'
+    return out == 'B:' + cls.__name__
+
+
+OBLIGATIONS.append(Ob('similar_names', ob_similar_names, ['0 <= k < %d' % len(NAME_CLASSES)], timeout=tier(100, 300), data='-',
+                      selectors='exception classes named Error / Err / xErr1 / Err12 / rr1 against handlers KeyError, Err1, "MyException LookupErrorX", bare'))
+
+T_RET_NAMED = {
+    'exception': cooked('a<dtml-try>b<dtml-if go><dtml-return rv></dtml-if>c<dtml-except Exception>H:<dtml-var error_type></dtml-try>z'),
+    'base': cooked('a<dtml-try>b<dtml-if go><dtml-return rv></dtml-if>c<dtml-except BaseException>H</dtml-try>z'),
+    'dtreturn': cooked('a<dtml-try>b<dtml-if go><dtml-return rv></dtml-if>c<dtml-except DTReturn>H<dtml-except object>O</dtml-try>z'),
+    'nested': cooked('a<dtml-try><dtml-in seq><dtml-try>i<dtml-if go><dtml-return rv></dtml-if><dtml-finally>f</dtml-try></dtml-in><dtml-except Exception>H</dtml-try>z'),
+    'handler': cooked('a<dtml-try><dtml-try><dtml-var "1/0"><dtml-except ZeroDivisionError><dtml-if go><dtml-return rv></dtml-if>h</dtml-try><dtml-except Exception>H</dtml-try>z'),
+}
+
+
+def make_return_named(key):
+    t = T_RET_NAMED[key]
+
+    def ob(go: bool, rv: int) -> bool:
+        """dtml-return is not an error: no handler catches it, whatever class names it lists (Exception, BaseException, DTReturn, object)"""
+        out = t(go=go, rv=rv, seq=[1, 2])
+        if go:
+            return out is rv
+        return out == {'exception': 'abcz', 'base': 'abcz', 'dtreturn': 'abcz', 'nested': 'aififz', 'handler': 'ahz'}[key]
+    ob.__name__ = 'ob_return_named_' + key
+    return ob
+
+
+for _k in T_RET_NAMED:
+    OBLIGATIONS.append(Ob('return_vs_named_handler_' + _k, make_return_named(_k), [], timeout=tier(100, 300), data='go bit, returned value rv (unbounded int)',
+                          selectors='dtml-return inside a try whose handlers name ' + _k))
